@@ -138,7 +138,17 @@ func errVarOfCall(b *Body, call *ast.CallExpr) *types.Var {
 // `v == nil`, also inside && / || combinations). It returns the targets reachable with a possibly non-nil or
 // untested error, and the number of targets seen.
 func (b *Body) guardedByNilErr(isA eventPred, isTarget func(n ast.Node) bool) (bad []ast.Node, nTargets int, nA int) {
+	return b.guardedByNilErrOpt(isA, isTarget, false)
+}
+
+// guardedByNilErrOpt: with ifCalled, paths on which no A call happened are accepted (the target is only required not
+// to follow an A whose error is non-nil or untested).
+func (b *Body) guardedByNilErrOpt(isA eventPred, isTarget func(n ast.Node) bool, ifCalled bool) (bad []ast.Node, nTargets int, nA int) {
 	const unknown, knownNil, noA = 1, 2, 4
+	badMask := uint64(unknown | noA)
+	if ifCalled {
+		badMask = unknown
+	}
 	info := b.Info()
 	var errVars = map[*types.Var]bool{}
 	for _, c := range b.findCalls(isA, false) {
@@ -166,7 +176,7 @@ func (b *Body) guardedByNilErr(isA eventPred, isTarget func(n ast.Node) bool) (b
 						seenT[m] = true
 						nTargets++
 					}
-					if s&(unknown|noA) != 0 && !seenBad[m] {
+					if s&badMask != 0 && !seenBad[m] {
 						seenBad[m] = true
 						bad = append(bad, m)
 					}
